@@ -186,6 +186,11 @@ Definition kexists (pid : Z) : bool := match kv_stat K pid with Some _ => true |
 Definition esrch_exn (pid : Z) : exn :=
   match kv_stat K pid with Some (_, _, true) => ZombieProcess | _ => NoSuchProcess end.
 
+(* Process() / Process(None): __init__ "if pid is None: pid = os.getpid()" -- the ONLY place where the code consults the
+   caller's own PID; [getpid] is what os.getpid() answers in the calling process at that moment (after a fork: the child's
+   number).  There is no other process-wide "who am I" state: a handle on one's own number is a handle like any other. *)
+Definition process_noarg (getpid : Z) : call := New getpid.
+
 (* Process.__init__(pid) -> _init: negative pid, pid range, _get_ident() reading /proc/<pid>/stat *)
 Definition new_obj (pid : Z) : outcome pobj :=
   if pid <? 0 then Exc ValueError
